@@ -14,7 +14,10 @@ RULE = ('fixed corpus (sizes 0 / 1 / block and header boundaries, last short blo
         '1-4 files with nested and latin-1 names, directory and single-file input, tree moved to another root.  Damage per block: '
         'exactly floor(parity/2) errors, or erasures / a random mix filling 2e+f <= parity exactly, or a random amount below the '
         'bound; in the message, in the parity, or both; all blocks or a random subset that always includes the last block.  '
-        'non-trivial = at least one damaged block repaired; distinct by (tool, codec, hash, fast, erasure mode, damage mode, where, at-capacity).')
+        'non-trivial = at least one damaged block repaired; distinct by (tool, codec, hash, fast, erasure mode, damage mode, where, at-capacity).  '
+        'Plus: toolrun stream (whole correction runs of both tools against the COMPOSED model of the tool-level theorems, hash and decoder as '
+        'recorded tables: counters, exit status, output folder; kinds none / light / heavy / partial / track / missing / truncated / '
+        '--ignore_size / --no_fast_check); cli-process scenarios (the tool as a process with -l: exit status); --hash none repair stream.')
 TRUSTED_EXTRA = base.TRUSTED_EXTRA
 ASSUMPTIONS = ['dec_complete: the third-party decoders decode every received word that is within capacity of a codeword (oracle hypothesis, '
                'tested here at exactly the capacity, not proved)',
@@ -220,6 +223,8 @@ def run(ctx):
     rng = ctx.rng
     from props import cli_proc
     cli_proc.stream(ctx, ['C01-header', 'C01-whole'])
+    from props import toolrun_lib
+    toolrun_lib.stream(ctx)
     hash_none_stream(ctx)
     cj = corpus()
     for job, res in zip(cj, pipe.run_jobs(cj)):
@@ -233,6 +238,9 @@ def run(ctx):
 
 
 def replay_case(ctx, case):
+    if case.get('stream') == 'toolrun':
+        from props import toolrun_lib
+        return toolrun_lib.replay(ctx, case)
     if case.get('kind') == 'cli-process':
         from props import cli_proc
         return cli_proc.replay(case)
@@ -258,7 +266,7 @@ def replay_case(ctx, case):
 
 
 def shrink(ctx, case):
-    if case.get('stream') == 'hash-none' or case.get('kind') == 'cli-process':
+    if case.get('stream') in ('hash-none', 'toolrun') or case.get('kind') == 'cli-process':
         return case
     def bad(c):
         r = pipe.run_jobs([c])[0]
